@@ -131,6 +131,9 @@ pub assume_specification [Rectangle::bottom_right] (a: &Rectangle) -> (r: Option
     ensures
         rect_nonempty(*a) ==> r == Some(Point { x: rect_right(*a) as i32, y: rect_bottom(*a) as i32 }),
         !rect_nonempty(*a) ==> r is None;
+pub assume_specification [Rectangle::contains] (a: &Rectangle, p: Point) -> (r: bool)
+    requires rect_valid(*a),
+    ensures r == rect_contains(*a, p.x as int, p.y as int);
 pub assume_specification [Size::new] (w: u32, h: u32) -> (r: Size)
     ensures r == (Size { width: w, height: h });
 pub assume_specification [<Rectangle as core::cmp::PartialEq>::eq] (a: &Rectangle, b: &Rectangle) -> (r: bool)
